@@ -88,6 +88,10 @@ def unescape(s):
     return ''.join(out)
 
 
+class LoopBack:
+    """marker: execution arrived (again) at the loop head it was asked to stop at"""
+
+
 class Frame:
     __slots__ = ('fn', 'locals', 'visits')
 
@@ -657,19 +661,45 @@ class Executor:
         raise Unmodelled('cast kind %s' % kind)
 
     # ------------------------------------------------------------------ statements
-    def exec_fn(self, fn, args):
+    def exec_loop_entry(self, fn, head, locals_by_name=None, from_entry_args=None):
+        """run `fn` either from its entry (from_entry_args) up to the first arrival at loop head `head`, or from `head`
+        with the given source-level variables until the next arrival at `head` or a return.
+        -> ('head', {name: value}) | ('return', value)"""
+        fn.parse()
+        frame = Frame(fn)
+        if from_entry_args is not None:
+            for i, a in enumerate(from_entry_args):
+                frame.cell(i + 1).value = a
+            r = self.exec_fn(fn, None, frame=frame, start_bb=0, stop_bb=head)
+        else:
+            for name, v in locals_by_name.items():
+                idx = fn.debug.get(name)
+                if not idx:
+                    raise Unmodelled('no source variable %r in %s' % (name, fn.name))
+                frame.cell(idx[0]).value = v
+            r = self.exec_fn(fn, None, frame=frame, start_bb=head, stop_bb=head)
+        if isinstance(r, LoopBack):
+            return 'head', {name: frame.cell(idx[0]).value for name, idx in fn.debug.items() if idx[0] in frame.locals}
+        return 'return', r
+
+    def exec_fn(self, fn, args, frame=None, start_bb=0, stop_bb=None):
         fn.parse()
         if self.depth > 200:
             raise BoundHit('recursion depth')
-        frame = Frame(fn)
-        for i, a in enumerate(args):
-            frame.cell(i + 1).value = a
+        if frame is None:
+            frame = Frame(fn)
+            for i, a in enumerate(args):
+                frame.cell(i + 1).value = a
         self.depth += 1
         self.call_stack.append(fn.name)
         self.fns_entered.add(fn.name)
         try:
-            bb = 0
+            bb = start_bb
+            first = True
             while True:
+                if stop_bb is not None and bb == stop_bb and not (first and start_bb == stop_bb):
+                    return LoopBack()
+                first = False
                 n = frame.visits.get(bb, 0) + 1
                 frame.visits[bb] = n
                 if n > self.loop_bound:
